@@ -394,10 +394,20 @@ func c05Program(r *report.R, id string) {
 		if res.Code != 0 || len(ers) != 1 {
 			continue
 		}
+		if withQueries && (ers[0].GasUsed*10 > tx.Gas()*9 || ref.UsedGas*10 > tx.Gas()*9) {
+			// close to the gas limit the two executions part ways for a reason that is not the subject:
+			// a precompile call costs more than a call to an empty account
+			r.Count("evm_programs_with_queries_skipped(near gas exhaustion)", 1)
+			continue
+		}
 		failing := strings.Count(p.shape(), "→")
 		outcome := "success"
 		if ers[0].VmError != "" {
 			outcome = "failed"
+		}
+		fam := "evm-only"
+		if withQueries {
+			fam = "evm+precompile-queries"
 		}
 		ctx := n.Ctx()
 		bad := false
@@ -406,7 +416,7 @@ func c05Program(r *report.R, id string) {
 		dbg["gasUsed/reference"] = fmt.Sprint(ref.UsedGas)
 		dbg["gasLimit"] = fmt.Sprint(tx.Gas())
 		if len(ers[0].Logs) != ref.Logs {
-			r.Violation(id, "evm-only|"+outcome+"|logs≠reference", fmt.Sprintf("%d logs, reference %d; %s", len(ers[0].Logs), ref.Logs, p.shape()), dbg)
+			r.Violation(id, fam+"|"+outcome+"|logs≠reference", fmt.Sprintf("%d logs, reference %d; %s", len(ers[0].Logs), ref.Logs, p.shape()), dbg)
 			bad = true
 		}
 		for _, addr := range all {
@@ -425,17 +435,17 @@ func c05Program(r *report.R, id string) {
 			refExists := ref.Exists[addr] && (ref.CodeLen[addr] > 0 || ref.Nonces[addr] > 0 || ref.Balances[addr].Sign() > 0)
 			gotExists := exists && (codeLen > 0 || nonce > 0 || n.Balance(sdk.AccAddress(addr.Bytes()), vn.Denom).IsPositive())
 			if refExists != gotExists || codeLen != ref.CodeLen[addr] {
-				r.Violation(id, "evm-only|"+outcome+"|contract-existence/code≠reference", fmt.Sprintf("%s exists=%v code=%d, reference exists=%v code=%d; %s", addr.Hex(), gotExists, codeLen, refExists, ref.CodeLen[addr], p.shape()), dbg)
+				r.Violation(id, fam+"|"+outcome+"|contract-existence/code≠reference", fmt.Sprintf("%s exists=%v code=%d, reference exists=%v code=%d; %s", addr.Hex(), gotExists, codeLen, refExists, ref.CodeLen[addr], p.shape()), dbg)
 				bad = true
 				break
 			}
 			if gotExists && nonce != ref.Nonces[addr] {
-				r.Violation(id, "evm-only|"+outcome+"|nonce≠reference", fmt.Sprintf("%s nonce %d reference %d; %s", addr.Hex(), nonce, ref.Nonces[addr], p.shape()), nil)
+				r.Violation(id, fam+"|"+outcome+"|nonce≠reference", fmt.Sprintf("%s nonce %d reference %d; %s", addr.Hex(), nonce, ref.Nonces[addr], p.shape()), nil)
 				bad = true
 				break
 			}
 			if got := n.Balance(sdk.AccAddress(addr.Bytes()), vn.Denom).BigInt(); got.Cmp(ref.Balances[addr]) != 0 {
-				r.Violation(id, "evm-only|"+outcome+"|balance≠reference", fmt.Sprintf("%s balance %s reference %s; %s", addr.Hex(), got, ref.Balances[addr], p.shape()), nil)
+				r.Violation(id, fam+"|"+outcome+"|balance≠reference", fmt.Sprintf("%s balance %s reference %s; %s", addr.Hex(), got, ref.Balances[addr], p.shape()), nil)
 				bad = true
 				break
 			}
@@ -460,7 +470,7 @@ func c05Program(r *report.R, id string) {
 					want = ref.DB.GetState(addr, kk)
 				}
 				if post[kk] != want {
-					r.Violation(id, "evm-only|"+outcome+"|storage≠reference", fmt.Sprintf("%s slot %s = %s, reference %s; %s", addr.Hex(), kk.Hex(), post[kk].Hex(), want.Hex(), p.shape()), nil)
+					r.Violation(id, fam+"|"+outcome+"|storage≠reference", fmt.Sprintf("%s slot %s = %s, reference %s; %s", addr.Hex(), kk.Hex(), post[kk].Hex(), want.Hex(), p.shape()), nil)
 					bad = true
 					break
 				}
